@@ -388,7 +388,9 @@ class PrintRunner:
                 self.ctx.broken.append(("C-BROKEN", "opt.c buffer literals",
                                         "%s no longer contains /%s/: the sizes in Hostlist/Print.lean (WCOLL_STR, XLIST_BUF) "
                                         "must be re-read" % (f, pat)))
-        return self.hl.build()
+        # built here (not through HL.build): that one also re-reads the parser's buffer literals, C01/C15's concern
+        from vlib.common import HARNESS
+        return self.ctx.cc(self.exe, [os.path.join(HARNESS, "hl_harness.c")], san=True, assertions=True)
 
     def probe_variant(self):
         """which form of hostlist_deranged_string's truncation test does the code under test contain?
